@@ -55,6 +55,13 @@ def r_sides(idx, rep, modules, rule="R-SIDES", floor=10, assignments=True):
                         v = vals[i] if vals is not None else (st.value if not isinstance(tg, ast.Tuple) else None)
                         if v is None:
                             continue
+                        # one element of a library call's result (`point_to_disk(q, c1, r1, n1)[1]`) is judged like the tuple-unpack form `_, x = point_to_disk(..)`:
+                        # by the call clause below (which side each ARGUMENT belongs to), not as an expression over names
+                        pv = v
+                        while isinstance(pv, ast.Subscript):
+                            pv = pv.value
+                        if pv is not v and isinstance(pv, ast.Call) and idx.resolve_call(m, pv, f.cls) is not None:
+                            continue
                         used = _sides_in(v, names)
                         if not used:
                             continue
